@@ -439,6 +439,12 @@ pub fn run(tier: Tier) -> i32 {
     wire_ops(&mut c);
     let _ = [0].par_iter().count();
     rep.violations(c.viol.drain(..));
+    // Delay_Resp: receive time x request correction (both signs, extremes) through a real master
+    // port - the emitted receiveTimestamp + correctionField reproduce receive time + request
+    // correction to 2^-16 ns (C10's request lattice; here only its timestamp rules)
+    let dr = crate::c10::lattice_requests(tier);
+    c.evals += dr.evals;
+    rep.violations(dr.v.into_iter().filter(|v| v.signature == "delayresp-timestamp" || v.signature == "delayresp-correction-wrapped" || v.signature.ends_with("resp-timestamp") || v.signature == "pdelayfup-timestamp"));
     rep.cover("evaluations", json!(c.evals));
     rep.cover("distinct_nontrivial", json!(c.representable));
     rep.cover("rule", json!("full products of the boundary lattices (quick: 75 times x 25 durations, 190 TimeInterval bit patterns; thorough: 770 times x ~570 durations - every power of two of 2^-32 ns with its neighbours, both signs - and ~4200 TimeInterval patterns incl. all two-bit patterns and their complements; all 256 log intervals) through every public Time/Duration/Interval operation, TimeInterval via PortDS+serde, Time->wire via a real master port's Follow_Up; non-trivial = cases whose exact result is representable (must be bit-exact); the others must not return a value"));
